@@ -1528,6 +1528,26 @@ def loop_heads(fu):
 	"""blocks that fetch the next loop item (`Iterator::next`): cutting there confines a search to one iteration"""
 	return set(fu.call_blocks(lambda p: p.endswith('Iterator::next') or p.endswith('::next')))
 
+def control_conds(fu, block):
+	"""branch conditions that can steer control away from `block` within one loop iteration (cheap control dependence):
+	[(switch block, condition key, line)]"""
+	ex = Expr(fu)
+	out = []
+	back = fu.reach_back([block])
+	heads = loop_heads(fu)
+	for bi in sorted(back):
+		t = fu.blocks[bi]['t']
+		if t[1] != 'switch':
+			continue
+		succs = fu.succ(bi)
+		cut = {bi} | {h for h in heads if bi in fu.reach([h]) and h in fu.reach([bi])}
+		avoid = [s for s in succs if block not in fu.reach([s], removed_blocks=cut)]
+		reach = [s for s in succs if block in fu.reach([s], removed_blocks=cut)]
+		if reach and avoid:
+			e = ex.of_operand(t[2])
+			out.append((bi, leaf_key(e) if e[0] != 'disc' else 'disc:' + leaf_key(e[1]), fu.line_of(bi)))
+	return out
+
 def P4_fail_blocks(facts, rule, fu, acts, decisions, want_true=True, what='', key=None, min_decisions=1, stop_blocks=()):
 	"""from the failing edge of every decision no act is reachable (unless a pass edge of
 	one of the decisions is taken again, e.g. on the next loop iteration)."""
